@@ -996,7 +996,7 @@ def check_fence_bound(ctx: Ctx) -> None:
     scan_calls = []
     for n, c in flow.all_calls():
         t = prog.resolve_call(code_f, c)
-        if isinstance(t, list) and t[0].cls is None and t[0].module is code_f.module:
+        if isinstance(t, list) and t[0].cls is None and not isinstance(t[0].node, ast.Lambda):  # (any module of the package: helpers get moved)
             cf = t[0]
             if any(isinstance(x, ast.Call) and call_name(prog, cf, x) in ("re.finditer", "re.findall") for x in walk_no_nested(cf.node)):
                 scan_calls.append((n, c, cf))
